@@ -1,6 +1,7 @@
 package checks
 
 import (
+	"sync"
 	"fmt"
 	"sort"
 	"strings"
@@ -31,6 +32,80 @@ type World struct {
 	Pending        bool   // unstable data not yet flushed
 	FreshB, FreshI uint64 // free counts of the freshly formatted file system
 	ViaXDR         bool   // requests go through XDR encoding and the registration table (C02 transport search)
+	// SkipLive: live handles (of a prepared state with tens of thousands of objects) that per-handle probes leave out
+	SkipLive map[string]bool
+}
+
+// Prepared is a state that is expensive to reach (e.g. the inode table exhausted: 32765 creates), built once
+// per process through the API with the reference model following, and then cloned: image + model + bindings.
+type Prepared struct {
+	Img            *vdisk.Image
+	Model          *reffs.FS
+	Vars           *fsx.Vars
+	FreshB, FreshI uint64
+	Skip           map[string]bool
+}
+
+type PrepSpec struct {
+	Disk uint64
+	Ops  []fsx.Op
+	Keep []string // names (variables) whose handles stay in the per-handle probes
+}
+
+var prepSpecs = map[string]*PrepSpec{}
+var prepCache sync.Map
+
+// prepared must be called outside vrt.Run.
+func prepared(name string) *Prepared {
+	if v, ok := prepCache.Load(name); ok {
+		return v.(*Prepared)
+	}
+	spec := prepSpecs[name]
+	if spec == nil {
+		panic("unknown prepared state " + name)
+	}
+	img := cachedMkfs(spec.Disk)
+	p := &Prepared{Skip: map[string]bool{}}
+	res := vrt.Run(vrt.Config{Horizon: 4_000_000_000}, func() {
+		w := NewWorld(img)
+		w.Disk.Record = false
+		w.Model.AllowImplFail = true
+		for _, o := range spec.Ops {
+			if _, _, mis := w.Do(o); mis != nil {
+				panic(fmt.Sprintf("prepared state %s: %s: %v", name, o, mis))
+			}
+		}
+		w.Flush()
+		vrt.Quiesce()
+		w.Srv.ShutdownNfs()
+		p.Img, p.Model, p.Vars, p.FreshB, p.FreshI = w.Disk.Snapshot().Flatten(), w.Model, w.Vars, w.FreshB, w.FreshI
+		keep := map[string]bool{}
+		for _, k := range spec.Keep {
+			if h, ok := w.Vars.Live[k]; ok {
+				keep[fmt.Sprintf("%x", h)] = true
+			}
+		}
+		if len(w.Model.ByFH) > 500 {
+			for fh := range w.Model.ByFH {
+				if !keep[fh] {
+					p.Skip[fh] = true
+				}
+			}
+		}
+	})
+	if res.Verdict != vrt.VOK {
+		panic(fmt.Sprintf("prepared state %s: %s %s", name, vrt.VerdictNames[res.Verdict], res.Msg))
+	}
+	prepCache.Store(name, p)
+	return p
+}
+
+// World starts a server on a copy of the prepared state (inside vrt.Run).
+func (p *Prepared) World() *World {
+	w := &World{Disk: vdisk.New(p.Img), Vars: p.Vars.Clone(), Model: p.Model.Clone(), Unstable: true, Probe: fsx.DefaultProbe,
+		FreshB: p.FreshB, FreshI: p.FreshI, SkipLive: p.Skip}
+	w.Srv = nfs.MakeNfs(w.Disk)
+	return w
 }
 
 // api is what requests are sent to: the server itself or the XDR proxy in front of it.
@@ -173,6 +248,18 @@ func (w *World) Do(o fsx.Op) (r fsx.Reply, implFail bool, mis *reffs.Mismatch) {
 		for i := 0; i < 5000; i++ {
 			off := (w.Model.Objs[id].Size + 4095) / 4096 * 4096
 			rr, _, m := w.Do(fsx.Op{K: "WRITE", H: "root/filler", Off: off, Cnt: 4096, Pat: 0x66, Stable: 2})
+			if m != nil {
+				return rr, false, m
+			}
+			if !rr.OK() {
+				break
+			}
+		}
+		return
+	case "INOFILL":
+		// create files in the directory until the server refuses (inode table exhausted)
+		for i := 0; i < 40000; i++ {
+			rr, _, m := w.Do(fsx.Op{K: "CREATE", H: o.H, N: fmt.Sprintf("%s%05d", o.N, i), As: "_"})
 			if m != nil {
 				return rr, false, m
 			}
